@@ -47,7 +47,7 @@ def main():
                 continue
             try:
                 sh("git -C %s apply %s" % (REPO, patch))
-                rc, out = sh("./vcheck %s --tier quick --no-build" % pid, cwd=ROOT)
+                rc, out = sh("./vcheck %s --tier quick" % pid, cwd=ROOT)       # with the build: the scalar kernels are regenerated from the patched tree
             finally:
                 sh("git -C %s checkout -- ." % REPO)
             lines = [l for l in out.splitlines() if l.startswith(("VIOLATION", "PASS", "FAIL"))]
@@ -59,6 +59,7 @@ def main():
             print("%-8s %s" % (name, rows[-1][1]), flush=True)
     finally:
         sh("git -C %s checkout -- ." % REPO)
+        sh("python3 tools/py2v.py", cwd=ROOT)           # generated kernels back to the unpatched source
         for f, txt in keep.items():
             open(os.path.join(evdir, f), "w").write(txt)
         rp = os.path.join(ROOT, "replays")
